@@ -11,6 +11,9 @@ NOTES = {
  "C04-m1": "strengthened: images with the index ahead of the log (no-wait / reordering)",
  "C10-m1": "strengthened: password changes through the HTTP API + byte search + login after restart",
  "C10-m2": "strengthened: token lifetime across a restart",
+ "C15-m1": "strengthened: a second topic with data in the same stream",
+ "C19-m1": "strengthened: a stored payload byte is damaged while the server is down; the poll must report it",
+ "C19-m2": "strengthened: the restart with the same key must itself succeed (the harness no longer keeps serving from the old instance after a failed start)",
  "C12-m2": "strengthened: producers poll from their own cursor right after each send (no-wait window)",
 }
 rows = []
